@@ -39,6 +39,11 @@ FACTORS = [
     ("fault", ["none", "obj_nan0", "obj_pinf2", "obj_ninf4", "obj_huge1", "con_nan3", "con_pinf0", "con_ninf5"]),
     ("ftol", [None, 0.0, 0.25]),
     ("scribble", [False, True]),
+    # exactly scaled copies of the problem (powers of two): variables, objective, constraints, objective offset
+    ("xscale", [1.0, 2.0 ** -20, 2.0 ** 20]),
+    ("fscale", [1.0, 2.0 ** -40, 2.0 ** 40]),
+    ("cscale", [1.0, 2.0 ** -30, 2.0 ** 30]),
+    ("foffset", [0.0, 2.0 ** 30]),
 ]
 
 
@@ -201,9 +206,45 @@ def case_of(row):
                 j = nl[-1]
                 comp = (k % len(case["cons"][j]["funs"]))
                 case["dev"] = [[f"con{j}", k, [alt, comp]]]
+    apply_scales(case, f["xscale"], f["fscale"], f["cscale"], f["foffset"])
     case["tag"]["cover"] = {k: (v if not isinstance(v, float) else float(v)) for k, v in f.items()}
     case["explore"] = 0
     return case
+
+
+def apply_scales(case, xs, fs, cs, fo):
+    """Exactly scaled copy of a case: variables x xs, objective x fs + fo, constraints x cs."""
+    if xs != 1.0:
+        if case.get("bounds") is not None:
+            case["bounds"]["lb"] = [v * xs for v in case["bounds"]["lb"]]
+            case["bounds"]["ub"] = [v * xs for v in case["bounds"]["ub"]]
+        case["x0"] = [v * xs for v in case["x0"]]
+    if case["obj"]["kind"] != "none":
+        if xs != 1.0:
+            case["obj"]["xs"] = xs
+        if fs != 1.0:
+            case["obj"]["mul"] = fs
+        if fo != 0.0:
+            case["obj"]["add"] = fo
+        if "target" in case["options"]:
+            case["options"]["target"] = case["options"]["target"] * fs + fo
+    for c in case["cons"]:
+        if c["kind"] == "lin":
+            c["A"] = [[v / xs * cs for v in row] for row in c["A"]]
+            c["lb"] = [v * cs for v in c["lb"]]
+            c["ub"] = [v * cs for v in c["ub"]]
+        else:
+            for fn in c["funs"]:
+                if xs != 1.0:
+                    fn["xs"] = xs
+                if cs != 1.0:
+                    fn["mul"] = cs
+            c["lb"] = [v * cs for v in c["lb"]]
+            c["ub"] = [v * cs for v in c["ub"]]
+            if "args" in c:
+                c["args"] = [v * cs for v in c["args"]]
+            if "shift" in c:
+                c["shift"] = c["shift"] * cs
 
 
 def cases(t=3):
